@@ -10,6 +10,7 @@ CONSTANTS
   PingReaderCtx = "ping"
   PingErrSend = "select"
   PingUnrMax = 2
+  EarlyWatcherFollows = "cctx"
   DeliveryHoldsRLock = FALSE
   KF_HalfCloseOnly = TRUE
 INVARIANTS
